@@ -37,8 +37,16 @@ package pql
 
 //@ func pql.hasJoinTerms
 //@   use expr
-//@   trusted hasLeft/hasRight name the two results (which join sides an expression mentions); they are defined by this function, which is verified separately only for safety
+//@   trusted composition assumed: the results are the fold, over the visit sequence of Walk (verified, C11), of the visitor closure hasJoinTerms$1 (verified below: it sets left/right exactly at identifiers named $left/$right and always continues); hasLeft/hasRight name the two results
 //@   ensures left == hasLeft(x) && right == hasRight(x)
+
+//@ func pql.hasJoinTerms$1
+//@   use expr walk
+//@   keywords $left $right
+//@   requires !isNilNode(n)
+//@   ensures @continue: result
+//@   ensures @left: left == (old(left) || identNamed(n, "$left"))
+//@   ensures @right: right == (old(right) || identNamed(n, "$right"))
 
 //@ func pql.writeExpression
 //@   use expr fail
